@@ -90,6 +90,41 @@ func buildSpec(a *analysed, randText string) gorun.Spec {
 				cs = append(cs, importName[mp]+"."+m.Name)
 			}
 		}
+		// the constants of the type as the Go type checker sees them (not the analysis under test):
+		// those of the type's own package when it declares any, else those of every scanned package
+		if a.FB != nil {
+			has := map[string]bool{}
+			for _, c := range cs {
+				has[c] = true
+			}
+			add := func(home bool) (n int) {
+				for _, p := range a.FB.Pkgs {
+					if home != (p.Path == d.PkgPath) {
+						continue
+					}
+					for _, c := range p.Consts {
+						if c.TypeQ != d.Q || c.Name == "_" || strings.Contains(c.Comment, "gomacro:no-enum") {
+							continue
+						}
+						n++
+						name := ""
+						if p.Path == a.Env.PkgPath {
+							name = c.Name
+						} else if c.Exported && importName[p.Path] != "" {
+							name = importName[p.Path] + "." + c.Name
+						}
+						if name != "" && !has[name] {
+							has[name] = true
+							cs = append(cs, name)
+						}
+					}
+				}
+				return n
+			}
+			if add(true) == 0 {
+				add(false)
+			}
+		}
 		if len(cs) > 0 {
 			s.Enums[e] = cs
 		}
